@@ -27,8 +27,12 @@ class _RestrictStub:
     """
 
     def __init__(self, w):
+        from ovc import specbdd
         self.w = w
         self.n = 0
+        # the code asks `isinstance(p, _bdd.Function)`: nodes of the
+        # symbolic manager play the role of cudd nodes here
+        self.Function = specbdd.SNode
 
     def restrict(self, p, care):
         w = self.w
